@@ -288,6 +288,17 @@ def check_views(r, src, soup, is_fresh_parse=True):
         wtx = [str(t) for t in reachable_text(e)]
         if tx != wtx:
             r.fail(Failure('C04', 'text', src, tx, wtx, opts={'node': str(node)[:60]}))
+        else:
+            # ... in DOCUMENT order: the leaves occur one after the other in
+            # the node's own serialisation
+            whole_n, at = str(node), 0
+            for leaf in tx:
+                k = whole_n.find(leaf, at)
+                if k < 0:
+                    r.fail(Failure('C04', 'text-order', src, tx, whole_n[:200],
+                                   opts={'node': str(node)[:60], 'leaf': leaf[:40]}))
+                    break
+                at = k + len(leaf)
         for d in desc:
             if isinstance(d, TexNode):
                 hops, p = 0, d
@@ -675,6 +686,11 @@ def _c14_chunk(arg):
 def oracle_C14(tier):
     n, depth, per = (120, 3, 6) if tier == 'quick' else (1200, 4, 14)
     docs = [s for s, _ in inputs.grammar_docs('C14', n, depth, maxchars=500)]
+    # text-only environments whose body is more than one token (a blank line
+    # or padding first): assigning .string replaces the WHOLE body
+    docs += ['\\begin{abstract}\n  indented text\n\\end{abstract}\n\\begin{quote}\n\nAfter a blank line.\n\\end{quote}\n',
+             '\\begin{center}  \n \n  padded  \\end{center}', 'x \\begin{a}\n\n\ny\\end{a} z',
+             '\\foo{x}{y}{x} tail \\seq{a}{b}{b}', '\\cmd{a}{a}{c} \\genfrac{}{}{0pt}{}{n}{k}']
     res = Result('oracle-C14')
     for r in pmap(_c14_chunk, [(c, str(i), per) for i, c in enumerate(chunked(docs, NPROC * 2))]):
         res.merge(r)
